@@ -100,6 +100,14 @@ fn check(id: &'static str, tier: Tier) -> i32 {
             let mut ctx = Ctx::new(id, tier, "fault_enumeration");
             props::c13::check(&mut ctx)
         }
+        "C18" => {
+            let mut ctx = Ctx::new(id, tier, "fault_enumeration");
+            props::c18::check(&mut ctx)
+        }
+        "C17" => {
+            let mut ctx = Ctx::new(id, tier, "fault_enumeration");
+            props::c17::check(&mut ctx)
+        }
         "C19" => {
             let mut ctx = Ctx::new(id, tier, "exploration");
             props::c19::check(&mut ctx)
@@ -123,6 +131,8 @@ fn replay(id: &'static str, path: &str) -> i32 {
         "C10" => props::c10::replay(path),
         "C09" => props::c09::replay(path),
         "C19" => props::c19::replay(path),
+        "C17" => props::c17::replay(path),
+        "C18" => props::c18::replay(path),
         "C13" => props::c13::replay(path),
         "C12" => props::c12::replay("C12", path),
         "C14" => props::evict::replay(props::evict::Which::C14, path),
